@@ -119,8 +119,19 @@ def idBits (n : Net) : Nat :=
   | .bits k => k
   | .xy x y p => x + y + p.getD 0
 
-/-- ID table decision: exactly one rule matches; the port is the rule's `idx`, which is
-    stored in an `id_t` field and therefore truncated to `idBits`. -/
+/-- width of the `idx` field of the rule type handed to a router (`.addr_rule_t`) -/
+def ruleIdxBits (n : Net) (r : Inst) : Nat :=
+  match ((r.params.find? (·.1 == "addr_rule_t")).map (·.2) : Option Expr) with
+  | some (.ident t) =>
+    match (n.topStructs.find? (·.1 == t)).bind fun (_, fs) => (fs.find? (·.2 == "idx")).map (·.1) with
+    | some ty =>
+      if ty.words == ["id_t"] && ty.dims.isEmpty then idBits n
+      else (logicBits? ty).getD (idBits n)
+    | none => idBits n
+  | _ => idBits n
+
+/-- ID table decision: exactly one rule matches; the port is the rule's `idx`, truncated to
+    the width of the field it is stored in. -/
 def decideId (n : Net) (r : Inst) (dst : Nat) : Option Nat :=
   match routerTable n r with
   | none => none
@@ -128,7 +139,7 @@ def decideId (n : Net) (r : Inst) (dst : Nat) : Option Nat :=
     match matching (idBits n) rules dst with
     | [rule] =>
       match rule.idx with
-      | .simple p => some (p % 2 ^ idBits n)
+      | .simple p => some (p % 2 ^ ruleIdxBits n r)
       | _ => none
     | _ => none
 
